@@ -201,6 +201,7 @@ func init() {
 					shapes = []shape{{5, 3, 1}, {6, 2, 1}, {7, 1, 1}, {8, 3, 1}, {9, 3, 2}, {10, 2, 2}, {11, 1, 2}, {12, 3, 2}, {13, 3, 3}}
 				}
 				for _, sh := range shapes {
+					cs = append(cs, fw.Case{ID: fmt.Sprintf("multiround/d%d-r%d-s%d", sh.d, sh.rate, sh.steps), Kind: "multiround", P: map[string]any{"d": sh.d, "rate": sh.rate, "steps": sh.steps}})
 					nq := 16
 					if !ctx.Quick {
 						nq = 64
@@ -279,8 +280,14 @@ func init() {
 					alpha := c15RandE(r)
 					x := randGL(r)
 					reduced := []ref.E{randE(r), randE(r)}
+					degenerate := c.Int("i")%6 == 5
+					if degenerate {
+						// the domain point equals an opening point: the quotient is undefined, the
+						// reference cannot accept, so the circuit must not either
+						inst.Batches[r.Intn(2)].Point = ref.EFrom(x)
+					}
 					want, ok := ref.CombineInitial(inst, init, alpha, x, reduced)
-					if !ok {
+					if !ok && !degenerate {
 						return fw.Outcome{Trivial: true}
 					}
 					var out gl.QuadraticExtensionVariable
@@ -309,6 +316,13 @@ func init() {
 						return nil
 					})
 					o.Events += events(res)
+					if degenerate {
+						if res.Verdict == engine.Accept {
+							return fw.Violate("accepts_undefined_quotient", fmt.Sprintf("friCombineInitial accepted a domain point equal to an opening point (x=%d)", x))
+						}
+						o.Inc("degenerate_opening_points_rejected")
+						return o
+					}
 					if res.Verdict != engine.Accept {
 						return fw.Violate("combine_initial_failed", resStr(res))
 					}
@@ -365,6 +379,56 @@ func init() {
 						return fw.Violate("wrong_final_poly_value", fmt.Sprintf("%d coefficients at %v: circuit %v reference %v", n, pt, got, want))
 					}
 					o.Inc("final_evaluations_compared")
+				case "multiround":
+					// one FRI chip verifying several rounds (different indices) in one circuit, valid
+					// rounds first and optionally a corrupted one last
+					s, err := getSynth(ctx, c.Int("d"), c.Int("rate"), c.Int("steps"))
+					if err != nil {
+						return fw.Inconcl("synthetic prover: " + err.Error())
+					}
+					lde := s.Prm.LdeBits()
+					for variant := 0; variant < 2; variant++ {
+						var ins []*roundInput
+						for k := 0; k < 4; k++ {
+							raw := uint64(r.Intn(1 << uint(lde)))
+							ins = append(ins, &roundInput{raw: raw, q: s.Query(raw), alpha: s.Alpha, betas: s.Betas, reduced: s.Reduced, finalPoly: s.FinalPoly, caps: s.Caps, commitCaps: s.CommitCaps()})
+						}
+						if variant == 1 {
+							last := ins[len(ins)-1]
+							last.q = cloneRound(last.q)
+							st := r.Intn(len(last.q.Steps))
+							pos := (last.raw >> uint(4*st)) & 15
+							last.q.Steps[st].Evals[pos][r.Intn(2)] = ref.Add(last.q.Steps[st].Evals[pos][0], 1)
+						}
+						res := harnRunOpt(engine.Options{Face: engine.Native}, func(api frontend.API) error {
+							chip, cd := friChipFor(api, s.Prm)
+							nLog := cd.FriParams.DegreeBits + cd.FriParams.Config.RateBits
+							for _, in := range ins {
+								ch := variables.FriChallenges{FriAlpha: qeConst(in.alpha)}
+								for _, b := range in.betas {
+									ch.FriBetas = append(ch.FriBetas, qeConst(b))
+								}
+								proof := &variables.FriProof{FinalPoly: variables.PolynomialCoeffs{Coeffs: qes(in.finalPoly)}}
+								for _, cp := range in.commitCaps {
+									proof.CommitPhaseMerkleCaps = append(proof.CommitPhaseMerkleCaps, capVars(cp))
+								}
+								var caps []variables.FriMerkleCap
+								for _, cp := range in.caps {
+									caps = append(caps, capVars(cp))
+								}
+								chip.VerifVerifyQueryRound(synthInstanceInfo(s), &ch, qes(in.reduced), caps, proof, gl.NewVariable(in.raw), uint64(1)<<nLog, nLog, roundVars(&in.q))
+							}
+							return nil
+						})
+						o.Events += events(res)
+						if variant == 0 && res.Verdict != engine.Accept {
+							return fw.Violate("rejects_valid_round_sequence", fmt.Sprintf("case %s: four valid rounds on one chip: %s %s", c.ID, resStr(res), res.Msg))
+						}
+						if variant == 1 && res.Verdict == engine.Accept {
+							return fw.Violate("accepts_corrupted_round_after_valid_ones", fmt.Sprintf("case %s", c.ID))
+						}
+					}
+					o.Inc("round_sequences_checked")
 				case "round":
 					s, err := getSynth(ctx, c.Int("d"), c.Int("rate"), c.Int("steps"))
 					if err != nil {
